@@ -113,7 +113,17 @@ func (c *ctx) generic() {
 			if i := strings.Index(first, "\n"); i > 0 {
 				first = first[:i]
 			}
-			c.v("C14/handler-panic", "conn %d: panic in handler: %s", e.Conn, first)
+			site := ""
+			for _, l := range strings.Split(e.S, "\n") {
+				if k := strings.Index(l, "/repo/"); k >= 0 && !strings.Contains(l, "tqsim") {
+					site = strings.TrimSpace(l[k+len("/repo/"):])
+					if sp := strings.IndexAny(site, " +"); sp > 0 {
+						site = site[:sp]
+					}
+					break
+				}
+			}
+			c.vs("C14/handler-panic", site, "conn %d: panic in handler: %s at %s", e.Conn, first, site)
 		}
 	}
 }
